@@ -303,6 +303,15 @@ Proof.
   - apply IH; auto; lia.
 Qed.
 
+Lemma fnv_step_eq h c : fnv_step h c = (((N.lxor h c) * fnv128_prime) mod two128)%N.
+Proof.
+  unfold fnv_step, fnv128_prime, two128. cbv zeta.
+  rewrite N.land_ones, N.shiftl_mul_pow2.
+  change (2 ^ 88)%N with 309485009821345068724781056%N.
+  change (2 ^ 128)%N with 340282366920938463463374607431768211456%N.
+  f_equal. lia.
+Qed.
+
 Section RingProofs.
   Variable hash : str -> N.
   Variable digest : str -> str.
@@ -348,6 +357,10 @@ Section RingProofs.
 
   Lemma ring_of_sorted reps names : sorted (rkeys (ring_of reps names)).
   Proof. apply isort_sorted. Qed.
+
+  Lemma ring_add_get_spec reps r names key :
+    ring_get (ring_add reps r names) key = get_spec (rkeys (ring_add reps r names)) key.
+  Proof. apply ring_get_spec, ring_add_sorted. Qed.
 
   (* the signature is a function of the sorted keys *)
   Lemma ring_add_signature reps r names :
@@ -600,3 +613,16 @@ Section RingProofs.
     intros a b Hinj Hne. split; apply sig_gate_refuses; unfold a, b; rewrite !ring_add_signature; auto.
   Qed.
 End RingProofs.
+
+(* the signature pre-image is a plain concatenation: with a hash function that
+   collides, two different rings can share it *)
+Lemma sig_preimage_unframed :
+  exists (hash : str -> N) ns1 ns2 key, forall digest,
+    ring_signature (ring_of hash digest 1 ns1) = ring_signature (ring_of hash digest 1 ns2) /\
+    ring_get hash (ring_of hash digest 1 ns1) key <> ring_get hash (ring_of hash digest 1 ns2) key.
+Proof.
+  exists (fun _ => 1094795585%N), [[120]; [121]]%N, [[120; 65; 65; 65; 65; 121]]%N, [107%N].
+  intros digest. split.
+  - unfold ring_signature, ring_of, ring_add. cbn [rsig]. f_equal.
+  - vm_compute. discriminate.
+Qed.
